@@ -233,3 +233,7 @@ pub mod sync;
 pub mod timer;
 
 mod utils;
+
+#[cfg(futures_intrusive_verif)]
+#[allow(missing_docs, missing_debug_implementations)]
+pub mod verif;
